@@ -29,9 +29,38 @@ SESSION = [('acquire', 'A', 0, 0), 'drain', ('acquire', 'B', 0, 0), 'drain', ('s
            ('hard', 'A'), 'drain', ('dpd', 'A'), 'drain']
 
 
-def session_events(w, start=0):
+def legit_orders():
+    """other orders of the same legitimate operations (who initiated, who rekeys first, what has or has not been sent
+    before): none of them is hostile, each has to run through with both daemons alive and in agreement at the end"""
+    import itertools
+    ops = [('soft', 'A'), ('soft', 'B'), ('rekey', 'A'), ('rekey', 'B'), ('hard', 'A'), ('hard', 'B'), ('dpd', 'A'), ('dpd', 'B'),
+           ('acquire', 'A', 0, 0), ('acquire', 'B', 0, 0)]
+    for first in ('A', 'B'):
+        for seq in itertools.permutations(ops, 2 if ck.quick else 3):
+            out = [('acquire', first, 0, 0), 'drain']
+            for op in seq:
+                out += [op, 'drain']
+            yield out
+
+
+def run_legit(session):
+    w = S.new_world(S.base_confs())
+    for ev in session_events(w, session=session):
+        w.step(ev)
+        for n, e in w.endpoints.items():
+            if not e.alive:
+                return [('loop-exit:%s' % e.dead_reason[0], '%s left main_loop of %s after %r: %s' % (
+                    e.dead_reason[0], n, ev[:2], e.dead_reason[1][:200]))]
+    a, b = w.endpoints['A'], w.endpoints['B']
+    if P.established_pairs(a) != P.established_pairs(b):
+        return [('legit-session-ends-in-disagreement', 'established IKE_SAs: A %d, B %d' % (
+            len(P.established_pairs(a)), len(P.established_pairs(b))))]
+    return []
+
+
+def session_events(w, start=0, session=None):
     """concrete events of the reference session from item index `start`"""
-    for item in SESSION[start:]:
+    for item in (SESSION if session is None else session)[start:]:
         if item == 'drain':
             guard = 0
             while w.net:
@@ -521,6 +550,12 @@ def replay(path):
             print('reproduced:', r)
         print('REPLAY %s' % ('reproduces a violation' if res else 'does not reproduce'))
         sys.exit(1 if res else 0)
+    if 'legit' in doc:
+        res = run_legit([tuple(x) if isinstance(x, (list, tuple)) else x for x in doc['legit']])
+        for r in res:
+            print('reproduced:', r)
+        print('REPLAY %s' % ('reproduces a violation' if res else 'does not reproduce'))
+        sys.exit(1 if res else 0)
     prepare()
     case = doc['case']
     case = (case[0], case[1], case[2], tuple(case[3]) if isinstance(case[3], (list, tuple)) else case[3])
@@ -548,6 +583,14 @@ def main():
         for sig, msg in res:
             ck.violation('%s:%s:%s' % (sig, case[1], label), '%s [hostile item %s at %s before step %d of the session]' % (
                 msg, label, case[2], case[0]), dict(case=case))
+    lo = list(legit_orders())
+    for sess, probs in zip(lo, ck.pmap(run_legit, lo)):
+        lab = '>'.join('%s%s' % (x[0], x[1]) for x in sess if x != 'drain')
+        labels.add('legit:' + lab)
+        outcomes[('legit-order', 'ok' if not probs else probs[0][0])] += 1
+        for sig, msg in probs:
+            ck.violation('%s:legit-order:%s' % (sig, '>'.join(x[0] for x in sess if x != 'drain')), '%s [legitimate session %s]' % (msg, lab),
+                         dict(legit=sess))
     mc = list(multi_cases())
     for case, probs in zip(mc, ck.pmap(multi_case, mc)):
         labels.add('multi-peer:dead=%s' % ''.join(case[1]))
@@ -555,7 +598,7 @@ def main():
         for sig, msg in probs:
             ck.violation('multi-peer:%s:dead=%d' % (sig, len(case[1])), '%s [ACQUIRE order %s, dead peers %s]' % (msg, case[0], case[1]),
                          dict(multi=case))
-    ck.coverage.update(evaluations=len(cs) + len(mc), distinct_nontrivial=len(labels),
+    ck.coverage.update(evaluations=len(cs) + len(mc) + len(lo), legit_orders=len(lo), distinct_nontrivial=len(labels),
                        rule='one evaluation = (position in the legitimate session, endpoint, hostile item or failing call '
                             'index): the item is injected through main_loop on a copy of the world, lines executed are '
                             'counted, then the session is completed and compared; distinct_nontrivial = distinct hostile '
